@@ -54,13 +54,13 @@ PROPS = {
         level="exploration",
         engine="pduloop",
         technique="runtime monitoring under the baton scheduler: shadow lifecycle state per slot fed by state-change hooks (transition relation), buffer access windows (builder/TX/RX/reader) and ownership generations checked on every event",
-        level_text=("Seeded + systematic (all single/double pre-emption placements over the first ~260 steps of small 1-2 slot configurations) exploration of interleavings with send failures (error/partial), duplicate and late responses and abandonment in every non-inside state. "
+        level_text=("Seeded + systematic (all single/double pre-emption placements over the first ~260 steps of small 1-2 slot configurations) exploration of interleavings with send failures (error/partial), duplicate and late responses, abandonment in every non-inside state, requests the wire never answers whose deadline passes while the frame is Sent (nobody inside), and resolved futures that the caller keeps and drops only some requests later. "
                     "Monitors: every observed state change must be in the documented lifecycle relation; a window onto a slot's buffer may not open while another party's window is open; a slot may not be re-initialised while any handle of the previous request (created frame, future, TX/RX claim, received frame, view) is alive. Held = no such event on the executions produced."),
         level_note="Exact because the baton serialises actors (shadow state == real state, asserted). Weak-memory-only races are outside the baton's reach; those are the business of the free-running variant (c02free: 3-5 OS threads, no baton) run under ThreadSanitizer (both tiers) and under Miri's race detector / Stacked Borrows / weak-memory emulation (both tiers, a different Miri scheduler seed and pre-emption rate per shard), where a tool report is the violation.",
         rule="case = one execution; non-trivial and distinct as for C01 (hash of event trace + schedule); aux_distinct = distinct slot-state vectors observed",
         assumptions=["abandonment only while neither TX nor RX is inside the slot (C06 covers the rest)", "sequentially consistent interleavings"],
         min_distinct=dict(quick=10000, thorough=300000),
-        required_counters=["send_failures", "requests_abandoned", "responses_duplicated", "access_windows", "transition.swap:Sending->Sendable", "transition.swap:Sent->None", "transition.swap:Created->None", "cfg.policy.preempt-at", "free.requests_completed", "free.requests_abandoned", "free.view_checks"],
+        required_counters=["send_failures", "requests_abandoned", "responses_duplicated", "access_windows", "transition.swap:Sending->Sendable", "transition.swap:Sent->None", "transition.swap:Created->None", "cfg.policy.preempt-at", "unanswered_requests_expired_while_sent", "resolved_futures_dropped_late", "free.requests_completed", "free.requests_abandoned", "free.view_checks"],
         runs=[
             native("sched-release", "c01", "release", args={"family": "c02", "scale-pct": dict(quick=500, thorough=200)}),
             native("sched-debug", "c01", "debug", args={"family": "c02", "scale-pct": dict(quick=60, thorough=10)}),
@@ -76,13 +76,13 @@ PROPS = {
         level="exploration",
         engine="pduloop",
         technique="runtime monitoring of operation histories: conservation invariant (slots not free == live owning handles) checked through the slot inspector after every operation, plus a drain-and-reallocate probe through MainDevice and a reset probe",
-        level_text=("Random operation histories (depth <= 40) over 1/2/4 slots mixing round trips, refused pushes, send errors and partial sends, lost/duplicate/garbage/oversized responses, expiry with 0-3 retries or forever under virtual time, drops of every handle kind and reset. "
+        level_text=("Random operation histories (depth <= 40) over 1/2/4 slots mixing round trips, refused pushes, send errors and partial sends, lost/duplicate/garbage/oversized responses, expiry with 0-3 retries or forever under virtual time, drops of every handle kind (including futures that have already resolved and are dropped only later) and reset. "
                     "After each operation the number of non-free slots must equal the number of live handles that own one; an allocation may fail only when all N are owned; after the history N single-datagram requests through MainDevice must allocate and the N+1st must fail; MainDevice::release must free leaked slots."),
         level_note="Operation-granularity interleaving (no pre-emption inside calls: that is C02/C06). Trusts the harness' bookkeeping of which handles it holds.",
         rule="case = one operation history; non-trivial = contains at least one error/abandon/expiry path; distinct by hash of the operation sequence",
         assumptions=["abandonment exactly while TX is inside the buffer is the C06 window"],
         min_distinct=dict(quick=4000, thorough=300000),
-        required_counters=["completed", "timed_out", "send_failures", "op.rx-duplicate", "op.rx-garbage", "op.rx-oversize", "op.drop-future", "op.drop-created", "probes", "resets", "alloc_refused_when_full"],
+        required_counters=["completed", "timed_out", "send_failures", "op.rx-duplicate", "op.rx-garbage", "op.rx-oversize", "op.drop-future", "op.drop-resolved-future", "op.drop-created", "probes", "resets", "alloc_refused_when_full"],
         runs=[
             native("hist-release", "c03", "release"),
             native("hist-debug", "c03", "debug", args={"scale-pct": dict(quick=30, thorough=10)}),
@@ -120,7 +120,7 @@ PROPS = {
         required_counters=["enumeration_complete", "timed_out", "completed_with_response", "response_received_before_deadline_examined", "forever_still_retrying",
                            "cfg.systematic_single_preemption_sweep", "timeouts", "retransmissions", "wire_losses", "requests_abandoned", "forever_policy_observed_8_periods",
                            "transition.swap:Sending->Abandoned", "transition.swap:RxBusy->Abandoned", "transition.swap:Sent->Sendable", "site.PollTimerFired",
-                           "send_failures", "transition.abandoned-freed-after-failed-send", "sweep_points_with_failing_first_send"],
+                           "send_failures", "transition.abandoned-freed-after-failed-send", "sweep_points_with_failing_first_send", "resolved_futures_dropped_late"],
         exhaustive_counter="enumeration_complete",
         exhaustive_note="part 1 (policy x lost-subset x late-poll x timeout) is enumerated completely on every run",
         runs=[
